@@ -44,6 +44,23 @@ Fixpoint hret_targets (r : hret) : list pty :=
 Fixpoint hook_targets (h : hook) : list pty :=
   match h with TIf _ a b => hook_targets a ++ hook_targets b | TRet r => hret_targets r | TRaise => [] end.
 
+(* the unions inside a type that have no handler (explain twin of disp_ok) *)
+Fixpoint missing_handlers (n : nat) (t : pty) : list pty :=
+  match n with O => [t] | S n =>
+  match t with
+  | PyUnion ms =>
+      match lookup_uhook Sg t with
+      | Some _ => []
+      | None => match filter (fun x => negb (is_none x)) ms with
+                | [x] => if Nat.eqb (length ms) 2 then missing_handlers n x else [t] | _ => [t] end end
+  | PySeq t' => missing_handlers n t'
+  | PyDict k v => missing_handlers n k ++ missing_handlers n v
+  | PyTuple l => flat_map (missing_handlers n) l
+  | PyFwd _ => [t]
+  | _ => [] end end.
+Definition fields_missing : list (string * string * list pty) :=
+  flat_map (fun c => flat_map (fun f => if good (ftype f) then [] else [(fst c, fname f, missing_handlers DFUEL (ftype f))]) (snd c)) (classes Sg).
+
 Definition fields_bad : list (string * string) :=
   flat_map (fun c => flat_map (fun f => if good (ftype f) then [] else [(fst c, fname f)]) (snd c)) (classes Sg).
 Definition hooks_bad : list pty :=
